@@ -11,6 +11,10 @@ type GoTo struct {
 	Tag slip.Object
 }
 
+// IsNonLocalExit marks the GoTo as a slip.NonLocalExit.
+func (gt *GoTo) IsNonLocalExit() {
+}
+
 // String returns a string representation of the object.
 func (gt *GoTo) String() string {
 	return string(gt.Append(nil))
